@@ -2147,7 +2147,7 @@ parsec_taskpool_t* parsec_taskpool_lookup( uint32_t taskpool_id )
 {
     parsec_taskpool_t *r = NOTASKPOOL;
     parsec_atomic_lock( &taskpool_array_lock );
-    if( taskpool_id <= taskpool_array_pos ) {
+    if( (0 != taskpool_id) && (taskpool_id <= taskpool_array_pos) ) {  /* ids start at 1: 0 is never registered */
         r = taskpool_array[taskpool_id];
     }
     parsec_atomic_unlock( &taskpool_array_lock );
